@@ -231,6 +231,9 @@ def run_job(mon, ctx, job, rnd):
                 attach.call(f, g, age, ev, n / 100)
                 if kind == 'race' and n % 10 == 0:
                     attach.call(f, g, age, ev, '%d.%d' % (n // 100, (n % 100) // 10))
+                    # numbers straight after a hand-timed text: the timing kind of one call must not colour the next
+                    attach.call(f, g, age, ev, (n + 1) / 100)
+                    attach.call(f, g, age, ev, n / 100)
                     attach.call(f, g, age, ev, '%d.%02d' % (n // 100, n % 100))
 
 
